@@ -14,4 +14,4 @@ for c in "$@"; do
 done
 git checkout -q -- .; git status --short | head -3
 # evidence / replay files written while the patch was applied describe the patched tree: restore the committed ones
-git -C /verif checkout -q -- evidence replays 2>/dev/null || true
+git -C /verif checkout -q -- evidence 2>/dev/null || true
